@@ -24,7 +24,7 @@ ASSUMPTIONS = [
 ]
 REQUIRED_CLASSES = ["nontrivial", "none", "meet", "slice", "defer", "equal_aspect", "doc_wider", "doc_taller",
                     "par_absent", "malformed_viewbox", "nonpositive", "tab_or_newline_separator",
-                    "multi_space", "case_variant", "negative_origin"]
+                    "multi_space", "case_variant", "negative_origin", "near_equal_aspect"]
 QUICK_SHARDS = 4
 
 plot_utils = sut.load("plot_utils")
@@ -141,8 +141,16 @@ def cases(draw):
     vb_tokens = [draw(number()), draw(number()), draw(number(positive=True)), draw(number(positive=True))]
     dw_val = float(draw(number(positive=True)))
     dh_val = float(draw(number(positive=True)))
-    aspect = draw(st.sampled_from(["free", "free", "equal", "equal_scaled"]))
-    if aspect == "equal":
+    aspect = draw(st.sampled_from(["free", "free", "equal", "equal_scaled", "near_equal"]))
+    if aspect == "near_equal":
+        # aspect ratios that differ by 1e-7 .. 1e-3 (unit-conversion rounding): meet/slice and alignment still apply
+        k = draw(st.sampled_from([1.0, 2.0, 0.5, 3.7795275591, 96.0 / 25.4]))
+        eps = draw(st.sampled_from([1e-7, 1e-6, 1e-5, 1e-4, 5e-4, 9e-4])) * draw(st.sampled_from([1, -1]))
+        dw_val, dh_val = float(vb_tokens[2]) * k * (1 + eps), float(vb_tokens[3]) * k
+        if draw(st.booleans()):
+            dw_val, dh_val = float(vb_tokens[2]) * k, float(vb_tokens[3]) * k * (1 + eps)
+        tags.add("near_equal_aspect")
+    elif aspect == "equal":
         dw_val, dh_val = float(vb_tokens[2]), float(vb_tokens[3])
     elif aspect == "equal_scaled":
         k = draw(st.sampled_from([2.0, 0.5, 4.0, 3.0]))
